@@ -63,6 +63,47 @@ Definition handle_signature (c : chain) (cons power : Z) (signed : bool) : optio
     end
   end.
 
+(* ---- x/evidence: handleEquivocationEvidence (cosmossdk.io/x/evidence v0.1.0 keeper/infraction.go) ----
+   One Misbehavior entry of the block: the consensus key, the height and time of the double sign, the power CometBFT
+   attributes to it. None = BeginBlock returns an error or panics (the chain halts). *)
+Definition double_sign_jail_end : Z := 253402300799 - genesis_unix.     (* types.DoubleSignJailEndTime = 9999-12-31 23:59:59 *)
+Definition ev_max_age_blocks : Z := 6.                             (* consensus params of the test chain *)
+Definition ev_max_age_secs : Z := 30.
+
+Record evidence := { ev_cons : Z; ev_height : Z; ev_time : Z; ev_power : Z }.
+
+Definition handle_evidence (c : chain) (e : evidence) : option chain :=
+  let cons := ev_cons e in
+  match by_cons (stk c) !! cons with
+  | None => None                                       (* ValidatorByConsAddr: ErrNoValidatorFound *)
+  | Some id =>
+    match vals (stk c) !! id with
+    | None => None
+    | Some v =>
+      if status_eqb (v_status v) Unbonded then Some c  (* ignored *)
+      else if (ev_max_age_secs <? now c - ev_time e) && (ev_max_age_blocks <? height c - ev_height e) then Some c   (* too old *)
+      else
+        match infos (sl c) !! cons with
+        | None => None                                 (* panic: expected signing info *)
+        | Some i =>
+          if si_tomb i then Some c
+          else if height c <? ev_height e - 1 then None   (* Slash: "impossible attempt to slash future infraction" *)
+          else
+            match slash c cons (ev_power e) (slp_slash_dbl_bp (slparams (sl c)) * (dec_one / 10000)) with
+            | None => None
+            | Some c1 =>
+              match (if v_jailed v then Some (stk c1) else jail (stk c1) cons) with
+              | None => None
+              | Some s2 =>
+                let i2 := {| si_start := si_start i; si_index := si_index i; si_until := double_sign_jail_end;
+                             si_tomb := true; si_missed := si_missed i |} in
+                Some (with_sl (with_stk c1 s2) (set_info (sl c1) cons i2))
+              end
+            end
+        end
+    end
+  end.
+
 (* MsgUnjail; the signer is the validator's operator *)
 Inductive mres := MOk (c : chain) | MErr (e : err).
 
